@@ -1,9 +1,13 @@
 (* C12 — Aspect-preserving viewBox placement fits or fills and honours alignment.
    The formulas of ivg.go are the single polymorphic definition Fit.aspect; its float32 instance
    (Fit.F32ops) is compared bit-for-bit with the implementation, and these theorems are about its
-   instance over the reals (FitR.Rops).  The float32 rounding error is not bounded by a theorem. *)
-From Coq Require Import Reals Lra.
-From IVG Require Import Fit FitR.
+   instance over the reals (FitR.Rops).  meet_float_error / slice_float_error bound the float32 rounding error:
+   every coordinate of the float32 result is within 48 * 2^-24 of the size of the result (+ 2^-149) of the
+   coordinate the real instance gives, for viewBox and target sizes between 2^-30 and 2^30 (from the soft-float's
+   rounding specification, SFReal.v; FErr.V is the real value of a float32 bit pattern, FErr.gf "finite bit pattern",
+   Mag.mag x k is 2^-k <= |x| <= 2^k). *)
+From Coq Require Import Reals Lra Lia ZArith.
+From IVG Require Import SF NumCodec Fit FitR SFReal FErr Mag FitF.
 Local Open Scope R_scope.
 
 Theorem meet_spec : forall minx miny maxx maxy dx dy ax ay,
@@ -34,6 +38,50 @@ Theorem size_spec : forall minx miny maxx maxy, vb_size Rops minx miny maxx maxy
 Proof. exact FitR.size_spec. Qed.
 Print Assumptions size_spec.
 
+Theorem meet_float_error : forall minx miny maxx maxy dx dy ax ay : f32,
+  gf minx -> gf miny -> gf maxx -> gf maxy -> gf dx -> gf dy -> gf ax -> gf ay ->
+  mag (V maxx - V minx) 30 -> mag (V maxy - V miny) 30 -> mag (V dx) 30 -> mag (V dy) 30 ->
+  0 < V maxx - V minx -> 0 < V maxy - V miny -> 0 < V dx -> 0 < V dy -> 0 <= V ax <= 1 -> 0 <= V ay <= 1 ->
+  close4 (aspect_meet F32ops minx miny maxx maxy dx dy ax ay)
+         (aspect_meet Rops (V minx) (V miny) (V maxx) (V maxy) (V dx) (V dy) (V ax) (V ay)) (V dx) (V dy).
+Proof. intros. apply FitF.meet_float_error; assumption. Qed.
+Print Assumptions meet_float_error.
+
+Theorem slice_float_error : forall minx miny maxx maxy dx dy ax ay : f32,
+  gf minx -> gf miny -> gf maxx -> gf maxy -> gf dx -> gf dy -> gf ax -> gf ay ->
+  mag (V maxx - V minx) 30 -> mag (V maxy - V miny) 30 -> mag (V dx) 30 -> mag (V dy) 30 ->
+  0 < V maxx - V minx -> 0 < V maxy - V miny -> 0 < V dx -> 0 < V dy -> 0 <= V ax <= 1 -> 0 <= V ay <= 1 ->
+  let r := aspect_slice Rops (V minx) (V miny) (V maxx) (V maxy) (V dx) (V dy) (V ax) (V ay) in
+  let '(MNX, MNY, MXX, MXY) := r in
+  close4 (aspect_slice F32ops minx miny maxx maxy dx dy ax ay) r (MXX - MNX) (MXY - MNY).
+Proof. intros. apply FitF.slice_float_error; assumption. Qed.
+Print Assumptions slice_float_error.
+
+(* what close4 says, spelled out *)
+Example close4_def : forall a b c d A B C D Mx My,
+  close4 (a, b, c, d) (A, B, C, D) Mx My <->
+  (gf a /\ gf b /\ gf c /\ gf d /\
+   Rabs (V a - A) <= 48 * u32 * Mx + eta2 /\ Rabs (V c - C) <= 48 * u32 * Mx + eta2 /\
+   Rabs (V b - B) <= 48 * u32 * My + eta2 /\ Rabs (V d - D) <= 48 * u32 * My + eta2).
+Proof. intros. reflexivity. Qed.
+
 (* non-vacuity: the hypotheses are satisfiable (a 10x20 viewBox, a 100x50 target, centred) *)
 Example ex_hyps : (0 < 10 /\ 0 < 20 /\ 0 < 100 /\ 0 < 50 /\ 0 <= 1/2 <= 1)%R.
 Proof. repeat split; lra. Qed.
+
+(* non-vacuity of the float hypotheses: the default viewBox side (-32 .. 32) is a pair of finite bit patterns whose
+   difference has magnitude class 30 *)
+Example ex_float_hyps : gf 3254779904%Z /\ gf 1107296256%Z /\ mag (V 1107296256%Z - V 3254779904%Z) 30 /\
+  0 < V 1107296256%Z - V 3254779904%Z.
+Proof.
+  assert (D1 : decode F32 1107296256 = FFin false 8388608 (-18)) by (vm_compute; reflexivity).
+  assert (D2 : decode F32 3254779904 = FFin true 8388608 (-18)) by (vm_compute; reflexivity).
+  assert (V1 : V 1107296256%Z = 32) by (unfold V; rewrite (B2R_fin _ _ _ _ _ D1); unfold b2; cbn; lra).
+  assert (V2 : V 3254779904%Z = -32) by (unfold V; rewrite (B2R_fin _ _ _ _ _ D2); unfold b2; cbn; lra).
+  split; [split; [unfold wf32; lia|exists true, 8388608%Z, (-18)%Z; exact D2]|].
+  split; [split; [unfold wf32; lia|exists false, 8388608%Z, (-18)%Z; exact D1]|].
+  rewrite V1, V2. split; [|lra]. unfold mag. replace (32 - -32) with 64 by lra. rewrite Rabs_pos_eq by lra.
+  pose proof (pow2_ge1 30). pose proof (pow2_pos 30). split.
+  - apply Rle_trans with 1; [|lra]. rewrite <- Rinv_1. apply Rinv_le_contravar; lra.
+  - replace 64 with (2 ^ 6) by (cbn; lra). apply pow2_mono. lia.
+Qed.
